@@ -628,7 +628,7 @@ def pruned_twins(rng, size=None, exotic=False):
     return nodes, roots, what
 
 
-def stored_depth_siblings(rng, n_parents, points=DEPTH_POINTS):
+def stored_depth_siblings(rng, n_parents, points=DEPTH_POINTS, nest=3):
     """The cheap way to put ANY 2-byte depth next to any other: pruned branches STORE the depth they answer with.  One DAG: pruned
     branches (masks 1, 3, 7, random hashes) whose stored depths are DEPTH_POINTS / byte-wise independent values, then ordinary parents
     with 2-4 of them (and of earlier parents) in every order, and Merkle updates over two of them (children read one level higher).
@@ -647,12 +647,15 @@ def stored_depth_siblings(rng, n_parents, points=DEPTH_POINTS):
         for b in m1:
             if byte_relation(db.infos[a].D[0], db.infos[b].D[0]) in ('><', '<>') or rng.random() < 0.1:
                 focus.append(db.add(ORD, rand_bits(rng, rng.choice([0, 1, 8])), (a, b)))
+    gen = {}                                     # parents of parents, at most `nest` generations (keeps every sub-DAG small)
     for t in range(n_parents):
         k = rng.choice([2, 2, 3, 4])
-        pool = pr + [f for f in focus[-20:] if db.ok(f)]
+        pool = pr + [f for f in focus[-20:] if db.ok(f) and gen.get(f, 0) < nest]
         refs = [rng.choice(pool) for _ in range(k)]
         if t % 4 == 3 and all(db.ok(r) for r in refs[:2]):
-            focus.append(db.add(MUPDATE, mupdate_bits(db.infos[refs[0]], db.infos[refs[1]]), refs[:2]))
+            refs = refs[:2]
+            focus.append(db.add(MUPDATE, mupdate_bits(db.infos[refs[0]], db.infos[refs[1]]), refs))
         else:
             focus.append(db.add(ORD, rand_bits(rng, rng.choice([0, 1, 8, 500])), refs))
+        gen[focus[-1]] = 1 + max(gen.get(r, 0) for r in refs)
     return db.nodes, focus
